@@ -351,6 +351,8 @@ func (p *P2P) Dial(address *lib.PeerAddress, disconnect, strictPublicKey bool) l
 // create a E2E encrypted channel with a fully authenticated peer and save it to
 // the peer set and the peer book
 func (p *P2P) AddPeer(conn net.Conn, info *lib.PeerInfo, disconnect, strictPublicKey bool) (err lib.ErrorI) {
+	// remember who the caller expected to reach: NewConnection() replaces the incomplete address with the authenticated one
+	expectedPublicKey := info.Address.PublicKey
 	// create the e2e encrypted connection while establishing a full peer info object
 	connection, err := p.NewConnection(conn, info)
 	if err != nil {
@@ -369,16 +371,12 @@ func (p *P2P) AddPeer(conn net.Conn, info *lib.PeerInfo, disconnect, strictPubli
 	// if peer is outbound, ensure the public key matches who we expected to dial
 	// this validation should just be done if the peer is from config not the peer book
 	if info.IsOutbound && strictPublicKey {
-		if !bytes.Equal(connection.Address.PublicKey, info.Address.PublicKey) {
-			return ErrMismatchPeerPublicKey(info.Address.PublicKey, connection.Address.PublicKey)
+		if !bytes.Equal(connection.Address.PublicKey, expectedPublicKey) {
+			return ErrMismatchPeerPublicKey(expectedPublicKey, connection.Address.PublicKey)
 		}
 	}
-	// overwrite the incomplete peer info with the complete and authenticated info
-	info.Address = &lib.PeerAddress{
-		PublicKey:  connection.Address.PublicKey,
-		NetAddress: info.Address.NetAddress,
-		PeerMeta:   connection.Address.PeerMeta,
-	}
+	// NOTE: the incomplete peer info was already overwritten with the complete and authenticated info in NewConnection(),
+	// before the receive service started handing it to the inbox as the sender of every message
 	// disconnect immediately if prompted by params
 	if disconnect {
 		p.log.Debugf("Disconnecting from peer %s", lib.BytesToTruncatedString(info.Address.PublicKey))
